@@ -42,9 +42,10 @@ import (
 //	               (idle network, slow applications); with messages in the pool it is the "delay"
 //	               fault, cost 1: those messages arrive after the timeout has fired
 //
-// Search: explicit-state breadth-first search over event histories; a state is reached by replaying
-// its (shortest) history on a fresh system, successor = replay + one event. States are merged on
-// c42World.canon(), see the argument there. Fault budget F bounds drop+dup per history. At every
+// Search: explicit-state breadth-first search over event histories (c42Search; the shard processes
+// share every level); a state is reached by replaying its (shortest) history on a fresh system,
+// successor = replay + one event. States are merged on c42World.canon(), see the argument there.
+// Fault budget F bounds drop+dup+delay per history, tick budget T the ticks of the exploration. At every
 // state without enabled events (and at the depth horizon) the fault-free continuation runs: deliver
 // everything FIFO, confirm, produce the remaining messages, tick when nothing else is possible, at
 // most c42ContTicks ticks, invariants checked after every step, and finally eventual confirmation of
@@ -760,8 +761,8 @@ func c42Scenarios() []c42Params {
 	if !r.Thorough() {
 		return []c42Params{mk(3, 2, 1, 1, false), mk(3, 3, 1, 0, false)} // 70,466 + 121,138 transitions
 	}
-	// ascending cost (245k, 486k, 1.05M transitions, then larger)
-	return []c42Params{mk(3, 3, 1, 1, false), mk(3, 2, 2, 0, false), mk(3, 2, 1, 3, false), mk(3, 3, 1, 2, false), mk(3, 2, 2, 1, false)}
+	// ascending cost: 244,833 / 486,302 / 1,049,032 / 1,110,256 transitions
+	return []c42Params{mk(3, 3, 1, 1, false), mk(3, 2, 2, 0, false), mk(3, 2, 1, 3, false), mk(3, 2, 2, 1, false)}
 }
 
 // c42SharedStart returns a start instant common to all shard processes of this run (the first
